@@ -62,6 +62,13 @@ CLAIMED.update({
    note="Where DOM Level 2 leaves behaviour open the harness does not judge and says so in sim/domviews.hpp: nodes of another document as range operands, range boundaries in trees not rooted at a Document / DocumentFragment, a TreeWalker whose current node is outside its root or inside a rejected subtree, insertNode / surroundContents with a start inside a comment or PI, surroundContents with a newParent that has children or is read-only, toString with a boundary inside a comment / PI, getElementById with several or detached candidates, the position of a boundary point right behind a replaced child / a split text node (the order xerces-c uses is mirrored). XPath results are not covered."),
 })
 
+CLAIMED.update({
+ "C16": dict(engine="poolsim", cat="exploration", ref="5.C16",
+   technique="deterministic simulation with fault injection: pools built from seeded schema / DTD generators, serializeGrammars as the durable write, Terminate + Initialize as crash and restart with only the byte stream surviving, deserializeGrammars as recovery; the restored pool is compared with the original by re-validating generated instances (events, defaults, errors, PSVI) and by a canonical XSModel listing; level-stamp change as injected storage fault",
+   text="Each run generates 1-3 schemas that import each other (simple types with enumeration / pattern / length / range / digits / whiteSpace facets, lists, unions, user-derived types; complex types with sequence / choice / all, mixed, simpleContent and complexContent by extension and restriction, block / final / abstract, attribute uses with default / fixed / required / prohibited, attribute groups, model groups, element and attribute wildcards; global elements with substitution groups, nillable, value constraints, block / final, unique / key / keyref; notations, annotations, blockDefault / finalDefault) and 0-2 DTDs (content models of every kind, ID / IDREF / NMTOKENS / enumerated / NOTATION / ENTITY attributes, entities, notations), loads them into pool A, records how A validates 3-14 mostly-valid instance documents (with xsi:type, xsi:nil, substitutions, wildcard content, seeded deviations) and lists its XSModel; serialises; in half of the runs the library is terminated and initialised again; restores into pool B; B must produce identical records and an identical listing; B serialised again must have the same length and restore (pool C) to the same behaviour; a third of the runs also present the stream with a changed serialisation-level stamp, which must be refused with XSerializationException.",
+   note="Pools whose grammars loaded with errors go through the whole cycle (restore works, no crash, same component model, same stream length) but their validation records are not compared: what an instance means against an erroneous schema is not defined (e.g. a content model violating unique particle attribution matches differently depending on whether the UPA check ran when it was first built). The stream is delivered in full blocks as XSerializeEngine requires; torn or bit-flipped streams are outside the statement. Component coverage is bounded by sim/schemagen.hpp; the kinds that occurred are reported as probes."),
+})
+
 NOT_APPLICABLE = {
  "C03": "pure function of (document text, settings) to an event stream; no schedule, fault or history in it - deciding it needs an independent infoset oracle over generated inputs (property-based testing), not simulation; its only environment-dependent part (refill boundaries) is decided under C04",
  "C05": "finite pure function over code points and byte sequences, decided by enumeration, not by sampling schedules or faults; 'every buffer split position' is exercised by C04's targeted chunking",
